@@ -20,6 +20,16 @@ CHECKS = {
         "Every generated fit (class x solver x spectrum x shape x scale 1e-8..1e8 x flags) is compared with an independent eigen-decomposition of the independently preprocessed input; exact-solver paths at 1e-9, randomised paths two-sided at 1e-6 where the method promises accuracy and one-sided (interlacing, Eckart-Young) always.",
         "5/C01",
     ),
+    "C12": (
+        "trace checker over dask scheduler events (harness-owned scheduler callable + dask Callback with injected sleeps) + relation monitor dask fit vs numpy fit",
+        "Every scheduler entry during fit(compute=False, check_nans=False) / rotator.fit(compute=False) is an observed event carrying the innermost xeofs frame (must be zero); results must be dask-backed before and numpy after compute(); the computed model is compared with the numpy fit for every class x chunk layout x scheduler (sync, 1/2/4/16 threads, injected delays); evidence lists the distinct task-completion orders actually observed.",
+        "5/C12",
+    ),
+    "C17": (
+        "fault enumeration: single-fault mutations of valid calls, exception-or-return observed at the API boundary",
+        "Every (fault, entry point, class, container) combination of the catalogue is executed after the un-mutated call has been shown to work; a mutated call that returns is a violation; negative controls from the property text are executed and never judged.",
+        "5/C17",
+    ),
 }
 
 NOT_APPLICABLE = []  # filled automatically for properties whose check is not built yet
